@@ -58,19 +58,43 @@ func batchKeyRule(c *Ctx, rule string) {
 		return
 	}
 	param := info.Defs[keyFn.Decl.Type.Params.List[0].Names[0]]
-	accessorsOn := func(e ast.Node, recv func(types.Object) bool) []string {
+	// locals of the key function that hold an accessor result (`includeTypes := cfg.IncludeTypes()`)
+	localFrom := map[types.Object]ast.Expr{}
+	ast.Inspect(keyFn.Decl.Body, func(n ast.Node) bool {
+		if as, ok := n.(*ast.AssignStmt); ok && len(as.Lhs) == len(as.Rhs) {
+			for i, l := range as.Lhs {
+				if o := identObj(info, l); o != nil {
+					if _, dup := localFrom[o]; dup {
+						localFrom[o] = nil // assigned more than once: not followed
+					} else {
+						localFrom[o] = as.Rhs[i]
+					}
+				}
+			}
+		}
+		return true
+	})
+	var accessorsOn func(e ast.Node, recv func(types.Object) bool) []string
+	accessorsOn = func(e ast.Node, recv func(types.Object) bool) []string {
 		set := map[string]bool{}
 		ast.Inspect(e, func(n ast.Node) bool {
-			call, ok := n.(*ast.CallExpr)
-			if !ok {
-				return true
-			}
-			sel, ok := ast.Unparen(call.Fun).(*ast.SelectorExpr)
-			if !ok {
-				return true
-			}
-			if id, ok := ast.Unparen(sel.X).(*ast.Ident); ok && recv(info.Uses[id]) {
-				set[sel.Sel.Name] = true
+			switch x := n.(type) {
+			case *ast.CallExpr:
+				sel, ok := ast.Unparen(x.Fun).(*ast.SelectorExpr)
+				if !ok {
+					return true
+				}
+				if id, ok := ast.Unparen(sel.X).(*ast.Ident); ok && recv(info.Uses[id]) {
+					set[sel.Sel.Name] = true
+				}
+			case *ast.Ident:
+				if o := info.Uses[x]; o != nil {
+					if rhs := localFrom[o]; rhs != nil && rhs != e {
+						for _, a := range accessorsOn(rhs, recv) {
+							set[a] = true
+						}
+					}
+				}
 			}
 			return true
 		})
